@@ -64,7 +64,7 @@ func (h *Handshake) Decode(_ *proto.PacketContext, rd io.Reader) (err error) {
 	if err != nil {
 		return err
 	}
-	port, err := util.ReadInt16(rd)
+	port, err := util.ReadUint16(rd) // unsigned short
 	if err != nil {
 		return err
 	}
